@@ -278,7 +278,8 @@ def harness_dir():
         shutil.rmtree(alt)
     shutil.copytree(hdir, alt, ignore=shutil.ignore_patterns("target"))
     p = os.path.join(alt, "Cargo.toml")
-    open(p, "w").write(open(p).read().replace('path = "/repo"', 'path = "%s"' % REPO))
+    txt = open(p).read().replace('path = "/repo"', 'path = "%s"' % REPO)
+    open(p, "w").write(txt)
     return alt
 
 
@@ -344,7 +345,7 @@ def harness_run(name, profile, lines, shards=None, timeout=3600, args=()):
             ol = [x for x in o.split("\n") if x != ""]
             got.extend(ol[:len(rest)])
             if p.returncode != 0 and len(got) < len(todo):
-                got.append("ABORT rc=%s" % p.returncode)
+                got.append("ABORT rc=%s%s" % (p.returncode, " (per-case watchdog: the case did not finish)" if p.returncode == 3 else ""))
         outs[i] = got
 
     ths = [threading.Thread(target=work, args=(i,)) for i in range(shards)]
